@@ -24,7 +24,7 @@ theorem SInv_step (s s' : St) (a : Act) (hi : SInv s) (hs : step s a = some s') 
 
 theorem SInv_reachable (s : St) (hr : Reachable s) : SInv s := by
   induction hr with
-  | init => exact SInv_init
+  | init f p => exact SInv_init f p
   | step s s' a _ hs ih => exact SInv_step s s' a ih hs
 
 end FmpRpc.T
